@@ -121,6 +121,12 @@ def parseEv (rids : List Rid) (pos : Nat) (t : String) : Option Ev :=
   | 'c' :: rest => do
     let h ← (String.ofList rest).toNat?
     pure (.cancel h)
+  -- `f<h>`: the stage of `h` has returned, `handleQuery`'s cancel is still to come.  A share arriving in
+  -- that window makes the loop wait for the cancel and is then dropped: for the deliveries the same as a
+  -- cancellation at this point (the harness produces the real window and reports how often it was hit).
+  | 'f' :: rest => do
+    let h ← (String.ofList rest).toNat?
+    pure (.cancel h)
   | ['x'] => some .other
   | ['w'] => some .watchdog
   | _ => none
